@@ -146,7 +146,9 @@ HCPcnone_seek(accrec_t *access_rec, int32 offset, int origin)
 
     info = (compinfo_t *)access_rec->special_info;
 
-    if (Hseek(info->aid, offset, origin) == FAIL)
+    /* HCPseek() has already turned the offset into an absolute position */
+    (void)origin;
+    if (Hseek(info->aid, offset, DF_START) == FAIL)
         HRETURN_ERROR(DFE_CSEEK, FAIL);
 
     return SUCCEED;
